@@ -173,6 +173,8 @@ class Session:
     """State shared by the transports of one instrument instance."""
     owner_thread: int
     faults: dict = field(default_factory=dict)   # call number (1-based) -> fault kind   (any number of faults)
+    fail_first: Any = None                       # (op, k, kind) or None
+    op_count: dict = field(default_factory=dict)
     fired_list: list = field(default_factory=list)           # [(attr, op, site, k, kind)] faults injected so far
     n: int = 0                                   # transport calls so far (since last reset)
     calls: list = field(default_factory=list)    # (attr, op, site, outcome)  outcome: 'ok' | 'exc:<kind>' | 'junk' | 'refused'
@@ -186,10 +188,13 @@ class Session:
     rx: dict = field(default_factory=dict)       # attr -> bytearray of queued device replies (scripted devices)
     written: list = field(default_factory=list)
 
-    def reset_counters(self, plan=None):
-        """plan: None | Plan | list of Plans"""
+    def reset_counters(self, plan=None, fail_first=None):
+        """plan: None | Plan | list of Plans;  fail_first: None | (op, k, kind): the first k calls of transport method
+        `op` fail with `kind`, the (k+1)-th succeeds (a device that answers only after a while; exercises retry loops)"""
         plans = [] if plan is None else ([plan] if isinstance(plan, Plan) else list(plan))
         self.faults = {p.k: p.kind for p in plans}
+        self.fail_first = fail_first
+        self.op_count = {}
         self.n = 0
         self.calls = []
         self.fired = None
@@ -236,6 +241,16 @@ def make_fake_transport_class():
                 raise Budget(f"more than {IO_BUDGET} transport calls")
             site = _site(s)
             kind = s.faults.get(s.n)
+            ff = s.fail_first
+            if ff is not None and ff[0] == op:
+                s.op_count[op] = s.op_count.get(op, 0) + 1
+                if s.op_count[op] <= ff[1]:
+                    s.fired = s.fired or (self.attr, op, site)
+                    s.fired_list.append((self.attr, op, site, s.n, ff[2]))
+                    s.calls.append((self.attr, op, site, "exc:" + ff[2]))
+                    if op == "close":
+                        return "fail-after-release"
+                    raise make_exc(ff[2])          # not sticky: the next attempt may succeed
             if kind is not None:
                 if kind in EXC_KINDS:
                     s.fired = s.fired or (self.attr, op, site)
